@@ -329,11 +329,13 @@ class Simplifier(pysmt.walkers.DagWalker):
             elif x.is_minus():
                 to_sum.append(x.arg(0))
                 to_sub.append(x.arg(1))
-            elif x.is_times() and x.args()[-1].is_constant():
-                const = x.args()[-1]
+            elif x.is_times() and any(y.is_constant() for y in x.args()):
+                # (the position of the coefficient among the factors
+                # depends on the order in which nodes were created)
+                const = next(y for y in x.args() if y.is_constant())
                 const_val = cast(Union[int, Fraction], const.constant_value())
                 if const_val < 0:
-                    new_times_args = list(x.args()[:-1])
+                    new_times_args = [y for y in x.args() if y is not const]
                     if const_val != -1:
                         const_val = -const_val
                         if const.is_algebraic_constant():
